@@ -355,8 +355,7 @@ theorem cls_cases (t : Tok) :
 /-! ### the invariant -/
 
 structure Inv (st : St V) (inner : List Fr) (outer : Nat) : Prop where
-  arr1 : st.inArray = false
-  arr2 : st.inArrayRow = false
+  arrs : st.arrs = []
   args : st.args.length = st.opf.length
   al : aligned st.opft st.opf inner = true
   fty : ∀ x ∈ st.opf, (x.ty == TType.function) = true
@@ -472,7 +471,7 @@ theorem evalFunc_inv (S : Sem V) (st : St V) (t n f : Tok) (opfRest : List Tok) 
             intro st' he
             simp only [Outcome.ok.injEq] at he
             subst he
-            exact ⟨hI.arr1, hI.arr2, hrestlen, harest, hfty, hlast, hI.out⟩
+            exact ⟨hI.arrs, hrestlen, harest, hfty, hlast, hI.out⟩
           · simp only [Bool.false_eq_true, if_false]
             have hne' : argsRest ≠ [] := by
               intro e; rw [e] at hrestlen
@@ -484,13 +483,13 @@ theorem evalFunc_inv (S : Sem V) (st : St V) (t n f : Tok) (opfRest : List Tok) 
             intro st' he
             simp only [Outcome.ok.injEq] at he
             subst he
-            exact ⟨hI.arr1, hI.arr2, by simpa [hl'] using hrestlen, harest, hfty, hlast, hI.out⟩
+            exact ⟨hI.arrs, by simpa [hl'] using hrestlen, harest, hfty, hlast, hI.out⟩
         · simp only [hne, Bool.false_eq_true, if_false]
           refine ⟨by simp, ?_⟩
           intro st' he
           simp only [Outcome.ok.injEq] at he
           subst he
-          exact ⟨hI.arr1, hI.arr2, hrestlen, harest, hfty, hlast, hI.out⟩
+          exact ⟨hI.arrs, hrestlen, harest, hfty, hlast, hI.out⟩
 
 theorem Inv.args_ne {st : St V} {inner : List Fr} {outer : Nat} (h : Inv st inner outer) {f : Tok} {r : List Tok}
     (hopf : st.opf = f :: r) : st.args ≠ [] := by
@@ -523,7 +522,7 @@ theorem inFuncRef_inv (S : Sem V) (st : St V) (f t n : Tok) (opfRest : List Tok)
           intro st' he
           simp only [Outcome.ok.injEq] at he
           subst he
-          exact ⟨hI.arr1, hI.arr2, hI.args, hal', hI.fty, hI.last, hI.out⟩
+          exact ⟨hI.arrs, hI.args, hal', hI.fty, hI.last, hI.out⟩
       · simp only [htop, if_false] at h
         by_cases hn : (n.ty == TType.argument || n.ty == TType.function) = true
         · simp only [hn, if_true] at h
@@ -538,7 +537,7 @@ theorem inFuncRef_inv (S : Sem V) (st : St V) (f t n : Tok) (opfRest : List Tok)
               intro st' he
               simp only [Outcome.ok.injEq] at he
               subst he
-              exact ⟨hI.arr1, hI.arr2, hI.args, hal', hI.fty, hI.last, hI.out⟩
+              exact ⟨hI.arrs, hI.args, hal', hI.fty, hI.last, hI.out⟩
             · simp only [hc, Bool.false_eq_true, if_false] at h
               obtain ⟨a', ha', hl'⟩ := pushArg_ok v st.args (hI.args_ne hopf)
               rw [ha'] at h
@@ -547,7 +546,7 @@ theorem inFuncRef_inv (S : Sem V) (st : St V) (f t n : Tok) (opfRest : List Tok)
               intro st' he
               simp only [Outcome.ok.injEq] at he
               subst he
-              exact ⟨hI.arr1, hI.arr2, by simpa [hl'] using hI.args, hal', hI.fty, hI.last, hI.out⟩
+              exact ⟨hI.arrs, by simpa [hl'] using hI.args, hal', hI.fty, hI.last, hI.out⟩
         · simp only [hn, Bool.false_eq_true, if_false] at h
           cases h
   · simp only [hr, Bool.false_eq_true, if_false] at h
@@ -614,7 +613,9 @@ theorem inFuncRest_inv (S : Sem V) (st : St V) (f t n : Tok) (opfRest : List Tok
     obtain ⟨opfd1, opft1⟩ := r
     have ha1 := hp.2 _ _ hpt
     have hI1 : Inv ({ st with opfd := opfd1, opft := opft1 } : St V) (frAfter inner t) outer :=
-      ⟨hI.arr1, hI.arr2, hI.args, ha1, hI.fty, last_frAfter t hne hI.last hend, hI.out⟩
+      ⟨hI.arrs, hI.args, ha1, hI.fty, last_frAfter t hne hI.last hend, hI.out⟩
+    have hcur : curArr ({ st with opfd := opfd1, opft := opft1 } : St V) = none := by
+      simp [curArr, hI.arrs]
     simp only
     rcases cls_cases t with h | h | h | h | h | h
     · rw [h.2] at hns; cases hns
@@ -631,8 +632,8 @@ theorem inFuncRest_inv (S : Sem V) (st : St V) (f t n : Tok) (opfRest : List Tok
         obtain ⟨h1, h2⟩ := hn
         subst h1; subst h2
         rw [hinner] at hI1
-        simp only [hna, Bool.false_eq_true, if_false, hI.arr1, hI.arr2, Bool.false_and]
-        exact evalFunc_inv S _ t n f opfRest fs outer ⟨rfl, rfl, hI1.args, hI1.al, hI1.fty, hI1.last, hI1.out⟩ hopf h.2.2
+        simp only [hna, Bool.false_eq_true, if_false, hcur]
+        exact evalFunc_inv S _ t n f opfRest fs outer ⟨hI1.arrs, hI1.args, hI1.al, hI1.fty, hI1.last, hI1.out⟩ hopf h.2.2
     · -- Argument separator
       obtain ⟨hnb, hnE, hnS⟩ := arg_not_paren h.2.2.2
       have hfr : frAfter inner t = inner := by simp [frAfter, hnb, hnE]
@@ -645,7 +646,7 @@ theorem inFuncRest_inv (S : Sem V) (st : St V) (f t n : Tok) (opfRest : List Tok
         simp only [Option.some.injEq, Prod.mk.injEq] at hn
         obtain ⟨h1, h2⟩ := hn
         subst h1; subst h2
-        simp only [h.2.2.2, if_true, hI.arr1, Bool.false_and, Bool.false_eq_true, if_false]
+        simp only [h.2.2.2, if_true, hcur, Option.isSome_none, Bool.false_eq_true, if_false]
         rw [hopf, hinner] at ha1
         have hfl := flushToSep_aligned S true f hf opfRest fs opft1 opfd1 st.args ha1 (hI.args_ne hopf)
         cases hflr : flushToSep S true f opft1 opfd1 st.args with
@@ -666,7 +667,7 @@ theorem inFuncRest_inv (S : Sem V) (st : St V) (f t n : Tok) (opfRest : List Tok
             intro st' he
             simp only [Outcome.ok.injEq] at he
             subst he
-            exact ⟨rfl, hI.arr2, by simpa [hlen] using hI.args, hal2, hI.fty, hinner ▸ hI.last, hI.out⟩
+            exact ⟨hI.arrs, by simpa [hlen] using hI.args, hal2, hI.fty, hinner ▸ hI.last, hI.out⟩
           | cons v rest' =>
             obtain ⟨a', ha', hl'⟩ := pushArg_ok v args2 hargs2
             simp only [ha']
@@ -674,7 +675,7 @@ theorem inFuncRest_inv (S : Sem V) (st : St V) (f t n : Tok) (opfRest : List Tok
             intro st' he
             simp only [Outcome.ok.injEq] at he
             subst he
-            exact ⟨rfl, hI.arr2, by simpa [hl', hlen] using hI.args, hal2, hI.fty, hinner ▸ hI.last, hI.out⟩
+            exact ⟨hI.arrs, by simpa [hl', hlen] using hI.args, hal2, hI.fty, hinner ▸ hI.last, hI.out⟩
     · -- (
       have hnS : isFuncStop t = false := h.2.2.1
       unfold nestStep at hn
@@ -684,10 +685,10 @@ theorem inFuncRest_inv (S : Sem V) (st : St V) (f t n : Tok) (opfRest : List Tok
       subst h1; subst h2
       have hfr : frAfter inner t = .P :: inner := by simp [frAfter, h.2.2.2.2]
       rw [hfr, hinner] at hI1
-      simp only [h.2.2.2.1, Bool.false_eq_true, if_false, hI.arr1, hI.arr2, Bool.false_and]
+      simp only [h.2.2.2.1, Bool.false_eq_true, if_false, hcur]
       unfold evalFunc
       simp only [hnS, Bool.not_false, if_true]
-      exact ⟨by simp, by intro st' he; simp only [Outcome.ok.injEq] at he; subst he; exact ⟨rfl, rfl, hI1.args, hI1.al, hI1.fty, hI1.last, hI1.out⟩⟩
+      exact ⟨by simp, by intro st' he; simp only [Outcome.ok.injEq] at he; subst he; exact ⟨hI1.arrs, hI1.args, hI1.al, hI1.fty, hI1.last, hI1.out⟩⟩
     · -- )
       have hnS : isFuncStop t = false := h.2.2.1
       unfold nestStep at hn
@@ -700,10 +701,10 @@ theorem inFuncRest_inv (S : Sem V) (st : St V) (f t n : Tok) (opfRest : List Tok
         subst h1; subst h2
         have hfr : frAfter inner t = fs := by simp [frAfter, h.2.2.2.2.1, h.2.2.2.2.2, hinner]
         rw [hfr] at hI1
-        simp only [h.2.2.2.1, Bool.false_eq_true, if_false, hI.arr1, hI.arr2, Bool.false_and]
+        simp only [h.2.2.2.1, Bool.false_eq_true, if_false, hcur]
         unfold evalFunc
         simp only [hnS, Bool.not_false, if_true]
-        exact ⟨by simp, by intro st' he; simp only [Outcome.ok.injEq] at he; subst he; exact ⟨rfl, rfl, hI1.args, hI1.al, hI1.fty, hI1.last, hI1.out⟩⟩
+        exact ⟨by simp, by intro st' he; simp only [Outcome.ok.injEq] at he; subst he; exact ⟨hI1.arrs, hI1.args, hI1.al, hI1.fty, hI1.last, hI1.out⟩⟩
     · -- any other token
       have hnS : isFuncStop t = false := h.2.2.1
       unfold nestStep at hn
@@ -713,10 +714,10 @@ theorem inFuncRest_inv (S : Sem V) (st : St V) (f t n : Tok) (opfRest : List Tok
       subst h1; subst h2
       have hfr : frAfter inner t = inner := by simp [frAfter, h.2.2.2.2.1, h.2.2.2.2.2]
       rw [hfr] at hI1
-      simp only [h.2.2.2.1, Bool.false_eq_true, if_false, hI.arr1, hI.arr2, Bool.false_and]
+      simp only [h.2.2.2.1, Bool.false_eq_true, if_false, hcur]
       unfold evalFunc
       simp only [hnS, Bool.not_false, if_true]
-      exact ⟨by simp, by intro st' he; simp only [Outcome.ok.injEq] at he; subst he; exact ⟨rfl, rfl, hI1.args, hI1.al, hI1.fty, hI1.last, hI1.out⟩⟩
+      exact ⟨by simp, by intro st' he; simp only [Outcome.ok.injEq] at he; subst he; exact ⟨hI1.arrs, hI1.args, hI1.al, hI1.fty, hI1.last, hI1.out⟩⟩
 
 theorem nest_range {t : Tok} (hr : t.sub = .range) {inner i' : List Fr} {outer o' : Nat}
     (hn : nestStep inner outer t = some (i', o')) : i' = inner ∧ o' = outer := by
@@ -772,6 +773,7 @@ theorem step_inv (S : Sem V) (st : St V) (t n : Tok) (inner inner' : List Fr) (o
     have hp := parseToken_ok S t st.opd st.opt hend
     unfold step
     simp only [hopf, List.isEmpty_nil, if_true]
+    unfold stepTail
     cases hpt : parseToken S t st.opd st.opt with
     | panic => exact absurd hpt hp.1
     | err => exact ⟨by simp, by intro _ h; cases h⟩
@@ -797,7 +799,7 @@ theorem step_inv (S : Sem V) (st : St V) (t n : Tok) (inner inner' : List Fr) (o
         intro st' he
         simp only [Outcome.ok.injEq] at he
         subst he
-        refine ⟨hI.arr1, hI.arr2, by simp [hargs0], ?_, ?_, ?_, ?_⟩
+        refine ⟨hI.arrs, by simp [hargs0], ?_, ?_, ?_, ?_⟩
         · simp [aligned, hty, hal0]
         · intro x hx; simp at hx; rw [hx]; exact hty
         · intro _; rfl
@@ -814,13 +816,9 @@ theorem step_inv (S : Sem V) (st : St V) (t n : Tok) (inner inner' : List Fr) (o
         subst h1; subst h2
         simp only [h.2.2, if_true]
         have hout : parens opt1 = outer := by simpa [depthAfter, hnb, hnE] using hd
-        by_cases hrow : st.inArrayRow = true
-        · simp only [hrow, if_true]
-          exact ⟨by simp, by intro st' he; simp only [Outcome.ok.injEq] at he; subst he
-                             exact ⟨hI.arr1, rfl, hargs0, hal0, hfty0, hI.last, hout⟩⟩
-        · simp only [hrow, Bool.false_eq_true, if_false]
-          exact ⟨by simp, by intro st' he; simp only [Outcome.ok.injEq] at he; subst he
-                             exact ⟨rfl, rfl, hargs0, hal0, hfty0, hI.last, hout⟩⟩
+        simp only [curArr, hI.arrs]
+        exact ⟨by simp, by intro st' he; simp only [Outcome.ok.injEq] at he; subst he
+                           exact ⟨rfl, hargs0, hal0, hfty0, hI.last, hout⟩⟩
       · -- Argument out of the function stack
         obtain ⟨hnb, hnE, hnS⟩ := arg_not_paren h.2.2.2
         unfold nestStep at hn
@@ -831,7 +829,7 @@ theorem step_inv (S : Sem V) (st : St V) (t n : Tok) (inner inner' : List Fr) (o
         simp only [hnS, Bool.false_eq_true, if_false]
         have hout : parens opt1 = outer := by simpa [depthAfter, hnb, hnE] using hd
         exact ⟨by simp, by intro st' he; simp only [Outcome.ok.injEq] at he; subst he
-                           exact ⟨hI.arr1, hI.arr2, hargs0, hal0, hfty0, hI.last, hout⟩⟩
+                           exact ⟨hI.arrs, hargs0, hal0, hfty0, hI.last, hout⟩⟩
       · -- (
         unfold nestStep at hn
         rw [h.1] at hn
@@ -841,7 +839,7 @@ theorem step_inv (S : Sem V) (st : St V) (t n : Tok) (inner inner' : List Fr) (o
         simp only [h.2.2.1, Bool.false_eq_true, if_false]
         have hout : parens opt1 = outer + 1 := by simpa [depthAfter, h.2.2.2.2] using hd
         exact ⟨by simp, by intro st' he; simp only [Outcome.ok.injEq] at he; subst he
-                           exact ⟨hI.arr1, hI.arr2, hargs0, hal0, hfty0, hI.last, hout⟩⟩
+                           exact ⟨hI.arrs, hargs0, hal0, hfty0, hI.last, hout⟩⟩
       · -- )
         unfold nestStep at hn
         rw [h.1] at hn
@@ -854,7 +852,7 @@ theorem step_inv (S : Sem V) (st : St V) (t n : Tok) (inner inner' : List Fr) (o
           simp only [h.2.2.1, Bool.false_eq_true, if_false]
           have hout : parens opt1 = o := by simpa [depthAfter, h.2.2.2.2.1, h.2.2.2.2.2] using hd
           exact ⟨by simp, by intro st' he; simp only [Outcome.ok.injEq] at he; subst he
-                             exact ⟨hI.arr1, hI.arr2, hargs0, hal0, hfty0, hI.last, hout⟩⟩
+                             exact ⟨hI.arrs, hargs0, hal0, hfty0, hI.last, hout⟩⟩
       · -- other
         unfold nestStep at hn
         rw [h.1] at hn
@@ -864,11 +862,11 @@ theorem step_inv (S : Sem V) (st : St V) (t n : Tok) (inner inner' : List Fr) (o
         simp only [h.2.2.1, Bool.false_eq_true, if_false]
         have hout : parens opt1 = outer := by simpa [depthAfter, h.2.2.2.2.1, h.2.2.2.2.2] using hd
         exact ⟨by simp, by intro st' he; simp only [Outcome.ok.injEq] at he; subst he
-                           exact ⟨hI.arr1, hI.arr2, hargs0, hal0, hfty0, hI.last, hout⟩⟩
+                           exact ⟨hI.arrs, hargs0, hal0, hfty0, hI.last, hout⟩⟩
   | cons f opfRest =>
     have hne : inner ≠ [] := fun e => by
       have := hI.opf_nil_iff.mpr e; rw [hopf] at this; cases this
-    unfold step
+    unfold step stepTail
     simp only [hopf, List.isEmpty_cons, Bool.false_eq_true, if_false]
     by_cases hs : isFuncStart t = true
     · obtain ⟨ha1, ha2⟩ := ha hs
@@ -885,7 +883,7 @@ theorem step_inv (S : Sem V) (st : St V) (t n : Tok) (inner inner' : List Fr) (o
       intro st' he
       simp only [Outcome.ok.injEq] at he
       subst he
-      refine ⟨hI.arr1, hI.arr2, by simp [hI.args, hopf], ?_, ?_, last_cons hne hI.last, hI.out⟩
+      refine ⟨hI.arrs, by simp [hI.args, hopf], ?_, ?_, last_cons hne hI.last, hI.out⟩
       · have := hI.al; rw [hopf] at this
         simp [aligned, hty, this]
       · intro x hx
@@ -908,7 +906,7 @@ theorem step_inv (S : Sem V) (st : St V) (t n : Tok) (inner inner' : List Fr) (o
         exact inFuncRest_inv S st f t n opfRest inner inner' outer outer' hI hopf hs' hn
 
 theorem inv_init : Inv ({} : St V) [] 0 :=
-  ⟨rfl, rfl, rfl, rfl, (fun x hx => by cases hx), (fun h => absurd rfl h), rfl⟩
+  ⟨rfl, rfl, rfl, (fun x hx => by cases hx), (fun h => absurd rfl h), rfl⟩
 
 theorem run_inv (S : Sem V) :
     ∀ (toks : List Tok) (st : St V) (inner : List Fr) (outer : Nat), Inv st inner outer →
